@@ -90,6 +90,9 @@ void LoadData(const JSON& data, ccl::semantic::RSModel& model) {
   SetOfEntities calculated{};
   for (auto it = begin(data); it != end(data); ++it) {
     const auto uid = it->at("entityUID").get<EntityUID>();
+    if (!model.Core().Contains(uid)) {
+      continue;
+    }
     if (it->at("wasCalculated").get<bool>()) {
       calculated.insert(uid);
     }
